@@ -116,6 +116,16 @@ func exec(script []string, opt comp.Options) comp.Result {
 	// body builds the callback for a program; done (if non-nil) runs at the very end of the body
 	body := func(c *call, ops []string, done func()) func(func(), func() <-chan struct{}) {
 		return func(bcast func(), getWaitCh func() <-chan struct{}) {
+			// a panic of the library inside the body (it may run in a goroutine of the library)
+			// becomes a history line the model does not know, never a crash of the harness
+			defer func() {
+				if r := recover(); r != nil {
+					log.Add("cbpanic %d", c.id)
+					if done != nil {
+						wg.Done()
+					}
+				}
+			}()
 			if c.unpark != nil {
 				select {
 				case <-c.unpark:
@@ -167,11 +177,22 @@ func exec(script []string, opt comp.Options) comp.Result {
 		}
 	}
 	heldAtPreblock := false
+	// keep the number of simultaneously active calls small (the model check explores every
+	// interleaving of the calls that overlap): let in-flight calls finish before adding more
+	throttle := func() {
+		if log.NumPending() >= 6 {
+			comp.WaitQuiet(log, time.Millisecond, 30*time.Millisecond)
+		}
+	}
 
 	for _, step := range script {
 		f := strings.Fields(step)
 		if len(f) == 0 {
 			continue
+		}
+		switch f[0] {
+		case "hold", "tryhold", "mhold", "wait":
+			throttle()
 		}
 		switch f[0] {
 		case "hold":
@@ -243,7 +264,6 @@ func exec(script []string, opt comp.Options) comp.Result {
 			wg.Add(1) // released at the end of the body, which may run in a goroutine of the library
 			safely(c.id, "mhold", func() {
 				bc.HoldLockMaybeAsync(body(c, ops, func() {
-					defer wg.Done()
 					c.mu.Lock()
 					if c.retd {
 						tag("maybe-async-body-after-return")
@@ -251,6 +271,7 @@ func exec(script []string, opt comp.Options) comp.Result {
 					c.mu.Unlock()
 					log.Add("cbout %d", c.id)
 					publish(c)
+					wg.Done()
 				}))
 				c.mu.Lock()
 				c.retd = true
@@ -471,6 +492,15 @@ func genProg(rng *rand.Rand) string {
 	}
 }
 
+func contains(l []int, v int) bool {
+	for _, x := range l {
+		if x == v {
+			return true
+		}
+	}
+	return false
+}
+
 func genPred(rng *rand.Rand) string {
 	return fmt.Sprintf("%s %d", []string{"eq", "ge", "ge", "err"}[rng.Intn(4)], rng.Intn(4))
 }
@@ -492,9 +522,30 @@ func gen(rng *rand.Rand, tier string) []string {
 	}
 	var out []string
 	ncalls, ngates := 0, 0
-	var holds, waits []int
-	add := func(s string) { out = append(out, strings.TrimSpace(s)) }
+	var holds, waits, live []int
+	inflight := 0
+	add := func(s string) {
+		s = strings.TrimSpace(s)
+		out = append(out, s)
+		switch strings.Fields(s)[0] {
+		case "hold", "tryhold", "mhold", "wait":
+			inflight++
+		case "settle", "quiesce":
+			inflight = 0
+		}
+	}
 	for i := 0; i < steps && ncalls < maxCalls; i++ {
+		// bounds of the exploration: at most 4 live waiters, at most 4 calls started since the last settle
+		for len(live) > 3 {
+			add(fmt.Sprintf("cancel %d", live[0]))
+			live = live[1:]
+		}
+		if inflight >= 4 {
+			add("settle")
+		}
+		if len(waits) > 0 && (len(live) == 0 || live[len(live)-1] != waits[len(waits)-1]) && !contains(live, waits[len(waits)-1]) {
+			live = append(live, waits[len(waits)-1])
+		}
 		r := rng.Intn(100)
 		switch {
 		case r < 22:
@@ -548,6 +599,7 @@ func gen(rng *rand.Rand, tier string) []string {
 				ncalls++
 			}
 			add(fmt.Sprintf("unpark %d", parked))
+			add("settle")
 		case r < 70 && ncalls+2 < maxCalls:
 			// the narrow window: waiter's critical section, writer's critical section, waiter's select
 			add(fmt.Sprintf("gate preblock %d", 1))
